@@ -6,6 +6,9 @@ import vlib
 def standard_check(chk, spec):
     tier = chk.tier
     pid = chk.pid
+    # findings recorded under the ids of the component checks this property assembles
+    for alias in spec.get('known_aliases', []):
+        chk.known += vlib.load_known(alias)
     # 1. translator
     ok_t = chk.srcgen()
     # 2. Coq closure of the property (theorems + the executable correspondence model)
